@@ -632,6 +632,17 @@ func c12PlaceCase(run *evid.Run, i int, j *Journal) {
 		vc, _ := cid.Decode(victim)
 		cs := x.W.Store.Clone()
 		cs.SetReplace(vc, raw)
+		bad := map[string]bool{victim: true}
+		// "such blocks": often more than one hostile block in the same stored history
+		nExtra := []int{0, 0, 1, 2, 4, 8}[rng.Intn(6)]
+		for k := 0; k < nExtra; k++ {
+			v2 := keys[rng.Intn(len(keys))]
+			it2 := c12Pool[rng.Intn(len(c12Pool))]
+			c2, _ := cid.Decode(v2)
+			cs.SetReplace(c2, mustHex(it2.RawHex))
+			bad[v2] = true
+		}
+		conc := []int{0, 0, 1, 2, 3, 8}[rng.Intn(6)]
 		// the manifest has to be published before the store is cloned for each loader
 		mhc, merr := l.ToMultihash(x.W.Ctx)
 		if merr == nil {
@@ -641,7 +652,6 @@ func c12PlaceCase(run *evid.Run, i int, j *Journal) {
 		}
 		w2 := *x.W
 		w2.Store = cs
-		bad := map[string]bool{victim: true}
 		for _, loader := range hx.Loaders {
 			if loader == "hash" && len(src.Heads) != 1 {
 				continue
@@ -653,18 +663,19 @@ func c12PlaceCase(run *evid.Run, i int, j *Journal) {
 			returned, dump := callHang(cs, time.Second, func() {
 				switch loader {
 				case "manifest":
-					loaded, err = w2.LoadManifest(mhc, 0, &hx.LoadOpts{})
+					loaded, err = w2.LoadManifest(mhc, 0, &hx.LoadOpts{Concurrency: conc})
 				case "json":
-					loaded, err = w2.LoadJSON(l.ToJSONLog(), 0, &hx.LoadOpts{})
+					loaded, err = w2.LoadJSON(l.ToJSONLog(), 0, &hx.LoadOpts{Concurrency: conc})
 				case "entries":
-					loaded, err = w2.LoadEntries(heads, 0, &hx.LoadOpts{})
+					loaded, err = w2.LoadEntries(heads, 0, &hx.LoadOpts{Concurrency: conc})
 				case "hash":
-					loaded, err = w2.LoadHash(heads[0].GetHash(), 0, &hx.LoadOpts{})
+					loaded, err = w2.LoadHash(heads[0].GetHash(), 0, &hx.LoadOpts{Concurrency: conc})
 				}
 			})
 			run.Count("placement_loads", 1)
 			run.Count("placement_"+pos, 1)
-			d := det("position", pos, "loader", loader, "edits", item.Edits)
+			d := det("position", pos, "loader", loader, "edits", item.Edits, "hostile_blocks", len(bad), "concurrency", conc)
+			run.Count(fmt.Sprintf("placement_with_%d_hostile_blocks", len(bad)), 1)
 			wit := func() map[string]any {
 				m := histSample(h)
 				m["placement"] = map[string]any{"replica": r, "position": pos, "victim": victim, "edits": item.Edits, "loader": loader, "block_hex": item.RawHex[:minInt(len(item.RawHex), 600)]}
